@@ -369,7 +369,7 @@ class PopulationsFeatureExtractor(FeatureExtractor):
     def _get_impl(self, feature: Feature, **kwargs) -> NDArrayf32:
         vals = [[f.get(feature, **kwargs) for f in fs] for fs in self._features]
         len_max1 = max(len(v) for v in vals)
-        len_max2 = max(*chain.from_iterable(((len(vv) for vv in v) for v in vals)))
+        len_max2 = max(chain.from_iterable(((len(vv) for vv in v) for v in vals)))
         out = np.zeros((len(vals), len_max1, len_max2), dtype=np.float32)
         for i, v in enumerate(vals):
             for j, vv in enumerate(v):
